@@ -16,6 +16,10 @@ func decodeTypeSection(enabledFeatures api.CoreFeatures, r *bytes.Reader) ([]was
 		return nil, fmt.Errorf("get size of vector: %w", err)
 	}
 
+	// Reject a declared size that the remaining input cannot hold before allocating for it.
+	if err = checkVectorSize(r, vs); err != nil {
+		return nil, err
+	}
 	result := make([]wasm.FunctionType, vs)
 	for i := uint32(0); i < vs; i++ {
 		if err = decodeFunctionType(enabledFeatures, r, &result[i]); err != nil {
@@ -41,6 +45,10 @@ func decodeImportSection(
 		return
 	}
 
+	// Reject a declared size that the remaining input cannot hold before allocating for it.
+	if err = checkVectorSize(r, vs); err != nil {
+		return
+	}
 	perModule = make(map[string][]*wasm.Import)
 	result = make([]wasm.Import, vs)
 	for i := uint32(0); i < vs; i++ {
@@ -73,6 +81,10 @@ func decodeFunctionSection(r *bytes.Reader) ([]uint32, error) {
 		return nil, fmt.Errorf("get size of vector: %w", err)
 	}
 
+	// Reject a declared size that the remaining input cannot hold before allocating for it.
+	if err = checkVectorSize(r, vs); err != nil {
+		return nil, err
+	}
 	result := make([]uint32, vs)
 	for i := uint32(0); i < vs; i++ {
 		if result[i], _, err = leb128.DecodeUint32(r); err != nil {
@@ -93,6 +105,10 @@ func decodeTableSection(r *bytes.Reader, enabledFeatures api.CoreFeatures) ([]wa
 		}
 	}
 
+	// Reject a declared size that the remaining input cannot hold before allocating for it.
+	if err = checkVectorSize(r, vs); err != nil {
+		return nil, err
+	}
 	ret := make([]wasm.Table, vs)
 	for i := range ret {
 		err = decodeTable(r, enabledFeatures, &ret[i])
@@ -129,6 +145,10 @@ func decodeGlobalSection(r *bytes.Reader, enabledFeatures api.CoreFeatures) ([]w
 		return nil, fmt.Errorf("get size of vector: %w", err)
 	}
 
+	// Reject a declared size that the remaining input cannot hold before allocating for it.
+	if err = checkVectorSize(r, vs); err != nil {
+		return nil, err
+	}
 	result := make([]wasm.Global, vs)
 	for i := uint32(0); i < vs; i++ {
 		if err = decodeGlobal(r, enabledFeatures, &result[i]); err != nil {
@@ -144,6 +164,10 @@ func decodeExportSection(r *bytes.Reader) ([]wasm.Export, map[string]*wasm.Expor
 		return nil, nil, fmt.Errorf("get size of vector: %v", sizeErr)
 	}
 
+	// Reject a declared size that the remaining input cannot hold before allocating for it.
+	if err := checkVectorSize(r, vs); err != nil {
+		return nil, nil, err
+	}
 	exportMap := make(map[string]*wasm.Export, vs)
 	exportSection := make([]wasm.Export, vs)
 	for i := wasm.Index(0); i < vs; i++ {
@@ -175,6 +199,10 @@ func decodeElementSection(r *bytes.Reader, enabledFeatures api.CoreFeatures) ([]
 		return nil, fmt.Errorf("get size of vector: %w", err)
 	}
 
+	// Reject a declared size that the remaining input cannot hold before allocating for it.
+	if err = checkVectorSize(r, vs); err != nil {
+		return nil, err
+	}
 	result := make([]wasm.ElementSegment, vs)
 	for i := uint32(0); i < vs; i++ {
 		if err = decodeElementSegment(r, enabledFeatures, &result[i]); err != nil {
@@ -191,6 +219,10 @@ func decodeCodeSection(r *bytes.Reader) ([]wasm.Code, error) {
 		return nil, fmt.Errorf("get size of vector: %w", err)
 	}
 
+	// Reject a declared size that the remaining input cannot hold before allocating for it.
+	if err = checkVectorSize(r, vs); err != nil {
+		return nil, err
+	}
 	result := make([]wasm.Code, vs)
 	for i := uint32(0); i < vs; i++ {
 		err = decodeCode(r, codeSectionStart, &result[i])
@@ -207,6 +239,10 @@ func decodeDataSection(r *bytes.Reader, enabledFeatures api.CoreFeatures) ([]was
 		return nil, fmt.Errorf("get size of vector: %w", err)
 	}
 
+	// Reject a declared size that the remaining input cannot hold before allocating for it.
+	if err = checkVectorSize(r, vs); err != nil {
+		return nil, err
+	}
 	result := make([]wasm.DataSegment, vs)
 	for i := uint32(0); i < vs; i++ {
 		if err = decodeDataSegment(r, enabledFeatures, &result[i]); err != nil {
